@@ -7,7 +7,6 @@ import (
 	"testing"
 
 	"verif/core/hx"
-	"verif/core/kf"
 	"verif/core/model/d2model"
 	"verif/core/stats"
 )
@@ -89,10 +88,6 @@ func regressSelect(t *testing.T, cases []selCase) {
 	}
 	for i, c := range cases {
 		if f, ok := checkSelect(rec, c); !ok {
-			if f.known != "" {
-				rec.Known(f.known, kf.What(f.known), c)
-				continue
-			}
 			rec.Violation(fmt.Sprintf("%s-regress%d", f.check, i), f.msg, c)
 			t.Error(f.msg)
 		}
